@@ -398,6 +398,14 @@ class Run(object):
                       'op(x) raises {} but op(x, out=y) succeeds'.format(
                           type(yref).__name__))
         ok, d = SP.close(r, yref, self.tol(yref, x))
+        if not ok and self.cfg['recipe'] == 'ufunc' and \
+                _numpy_out_defect(self.cfg.get('name'), x, op, o):
+            # NumPy 1.26 itself: np.isnan(a, out=<bool view with a trailing
+            # axis of length 1 and odd strides>) writes only the first
+            # entries (seen in the thorough tier); not odl's doing
+            self.ctx.probe('numpy-defect:{}-strided-out'.format(
+                self.cfg.get('name')))
+            raise Reject('NumPy itself is inconsistent for this out layout')
         if not ok:
             self.viol('ip-differs',
                       'op(x, out=y) differs from op(x) by {:.3g} (y was '
@@ -655,6 +663,26 @@ def _bad_input(domain, kind):
         n = sum(a.size for a in elem_arrays(good))
         return np.ones(n + 2)
     return None
+
+
+def _numpy_out_defect(name, x, op, o):
+    """Does plain NumPy give different numbers with and without an out
+    array of the layout used in this call?"""
+    try:
+        uf = getattr(np, name)
+        ins = [np.array(a, copy=True) for a in elem_arrays(x)]
+        if len(ins) != uf.nin or uf.nout != 1:
+            return False
+        with np.errstate(all='ignore'):
+            want = uf(*ins)
+            with seams.allocator('zero'):
+                r2 = SP.relayout(op.range.element(), o.get('olay', 'C'))
+            arr = elem_arrays(r2)[0]
+            arr[...] = np.ones((), dtype=arr.dtype)
+            uf(*ins, out=arr)
+        return not np.array_equal(arr, want.astype(arr.dtype), equal_nan=True)
+    except Exception:
+        return False
 
 
 def _held_elements(op, domain, limit=400):
